@@ -29,17 +29,30 @@ func TestVerifConsume(t *testing.T) {
 	}
 	for s := 0; s < n; s++ {
 		r := rand.New(rand.NewSource(int64(seed)*1_000_033 + int64(s)))
+		// every third scenario works in units of 2^60 (logged scaled): limits may be MaxUint64 (= 15 scaled units for
+		// exact multiples) and the running sum may overflow uint64
+		scale := uint64(1)
+		if s%3 == 0 {
+			scale = 1 << 60
+		}
 		var max fees.Dimensions
+		logMax := make([]int64, len(max))
 		for d := range max {
-			max[d] = uint64(r.Intn(12))
+			v := uint64(r.Intn(12))
+			max[d], logMax[d] = v*scale, int64(v)
+			if scale > 1 && r.Intn(2) == 0 {
+				max[d], logMax[d] = ^uint64(0), 15
+			}
 		}
 		m := internalfees.NewManager(nil)
-		lines := []any{map[string]any{"ev": "reset", "max": max[:]}}
+		lines := []any{map[string]any{"ev": "reset", "max": logMax}}
 		for i := 0; i < 12; i++ {
 			var u fees.Dimensions
 			for d := range u {
-				u[d] = uint64(r.Intn(6))
-				if r.Intn(25) == 0 {
+				u[d] = uint64(r.Intn(6)) * scale
+				if scale > 1 {
+					u[d] = uint64(r.Intn(10)) * scale
+				} else if r.Intn(25) == 0 {
 					u[d] = ^uint64(0) - uint64(r.Intn(3)) // overflowing the running sum must be refused as well
 				}
 			}
@@ -47,14 +60,14 @@ func TestVerifConsume(t *testing.T) {
 			c := m.UnitsConsumed()
 			lu := make([]int64, len(u))
 			for d := range u {
-				lu[d] = int64(u[d])
-				if u[d] > 1<<30 {
+				lu[d] = int64(u[d] / scale)
+				if scale == 1 && u[d] > 1<<30 {
 					lu[d] = 1 << 30
 				}
 			}
 			lc := make([]int64, len(c))
 			for d := range c {
-				lc[d] = int64(c[d])
+				lc[d] = int64(c[d] / scale)
 			}
 			lines = append(lines, map[string]any{"ev": "consume", "units": lu, "ok": ok, "dim": int(dim), "consumed": lc})
 		}
